@@ -94,7 +94,7 @@ struct Shape {
 }
 
 const DIRS: [&str; 5] = ["/", "/d/", "/../", "/d/../../", "/l/"];
-const N_BASE: u8 = 7; // f, l, .., ../f, "", absolute path inside the jail, l/f (a slash inside the base name)
+const N_BASE: u8 = 8; // f, l, .., ../f, "", absolute path inside the jail, l/f and l/s/f (slashes inside the base name)
 const N_KIND: u8 = 9;
 
 fn alphabet(full: bool) -> Vec<Shape> {
@@ -102,7 +102,7 @@ fn alphabet(full: bool) -> Vec<Shape> {
     let (dirs, bases, kinds): (Vec<&'static str>, Vec<u8>, Vec<u8>) = if full {
         (DIRS.to_vec(), (0..N_BASE).collect(), (0..N_KIND).collect())
     } else {
-        (vec!["/", "/../", "/l/"], vec![0, 1, 2, 5, 6], vec![0, 1, 5, 6, 8])
+        (vec!["/", "/../", "/l/"], vec![0, 1, 2, 4, 5, 6, 7], vec![0, 1, 5, 6, 7, 8])
     };
     for d in &dirs {
         for b in &bases {
@@ -122,7 +122,8 @@ fn materialise(s: &Shape, jail: &Jail) -> FFile {
         3 => "../f".to_string(),
         4 => String::new(),
         5 => format!("{}/x", jail.outside_dir()),
-        _ => "l/f".to_string(),
+        6 => "l/f".to_string(),
+        _ => "l/s/f".to_string(),
     };
     let link = |t: &str| FFile::symlink(s.dir, &base, t);
     match s.kind {
@@ -357,7 +358,7 @@ pub fn sweeps(ctx: &Ctx) -> Vec<Sweep> {
     {
         let a = full.clone();
         let n = a.len() as u64;
-        v.push(Sweep::new("hostile-1", format!("every single entry of the alphabet: dirname ∈ {:?} × basename ∈ {{f, l, .., ../f, \"\", absolute path inside the jail, l/f}} × kind ∈ {{regular, directory, symlink → f | .. | ../.. | ../../outside.txt | ../../outside-dir | absolute jail path, fifo}} ({} packages); snapshot of everything outside the target before/after extract; no panic", DIRS, n), n, {
+        v.push(Sweep::new("hostile-1", format!("every single entry of the alphabet: dirname ∈ {:?} × basename ∈ {{f, l, .., ../f, \"\", absolute path inside the jail, l/f, l/s/f}} × kind ∈ {{regular, directory, symlink → f | .. | ../.. | ../../outside.txt | ../../outside-dir | absolute jail path, fifo}} ({} packages); snapshot of everything outside the target before/after extract; no panic", DIRS, n), n, {
             let jail = Jail::new("h1");
             move |i, acc| hostile_case("hostile-1", &jail, &[&a[i as usize]], i, acc)
         }));
